@@ -92,6 +92,7 @@ class C18(Harness):
                     if i <= len(objs):
                         ops.append(['insert', i, enc(x)])
                 ops.append(['extend', [enc(y) for y in fresh[:2]]])
+                ops.append(['extend_gen', [enc(y) for y in fresh[:2]]])        # the same through a one-shot iterator
                 for i in (0, -1):
                     if objs:
                         ops.append(['setitem', i, enc(x)])
@@ -107,6 +108,7 @@ class C18(Harness):
             ops.append(['clear'])
             ops.append(['replace', [enc(y) for y in (fresh[:1] + objs[:1])]])
             ops.append(['replace', []])
+            ops.append(['replace_self'])          # p.objects = p.objects (what `p.objects += [...]` does first)
         else:
             keys = [k for k in model if isinstance(k, str)]          # (un-named entries of an open Selector have a tuple key in the model)
             if fresh:
@@ -131,6 +133,7 @@ class C18(Harness):
                 if len(keys) > 1:
                     ops.append(['pop', -2])
                 ops.append(['popkey', keys[0]])
+                ops.append(['popdefault', 'no-such-key', enc(objs[0])])       # dict.pop(key, default) for a missing key: nothing is removed
                 if len(keys) > 1:
                     ops.append(['popkey', keys[-1]])
                 ops.append(['remove', enc(objs[0])])
@@ -157,8 +160,10 @@ class C18(Harness):
                 m.append(dec(op[1]))
             elif kind == 'insert':
                 m.insert(op[1], dec(op[2]))
-            elif kind == 'extend':
+            elif kind in ('extend', 'extend_gen'):
                 m.extend(dec(x) for x in op[1])
+            elif kind == 'replace_self':
+                pass
             elif kind == 'setitem':
                 m[op[1]] = dec(op[2])
             elif kind == 'pop':
@@ -183,6 +188,8 @@ class C18(Harness):
             m.update([(k, dec(v)) for k, v in op[1]])
         elif kind == 'updatekw':
             m.update(**{op[1]: dec(op[2])})
+        elif kind == 'popdefault':
+            ret = dec(op[2])
         elif kind == 'popkey':
             ret = m.pop(op[1])
         elif kind == 'pop':
@@ -247,6 +254,14 @@ class C18(Harness):
             return o.insert(op[1], dec(op[2]))
         if kind == 'extend':
             return o.extend([dec(x) for x in op[1]])
+        if kind == 'extend_gen':
+            return o.extend(dec(x) for x in op[1])
+        if kind == 'replace_self':
+            p.objects = p.objects
+            w['proxy'] = None
+            return None
+        if kind == 'popdefault':
+            return o.pop(op[1], dec(op[2]))
         if kind == 'setitem':
             o[op[1]] = dec(op[2])
             return None
@@ -272,7 +287,9 @@ class C18(Harness):
             if cfg['style'] == 'list':
                 p.objects = [dec(x) for x in op[1]]
             else:
-                p.objects = {k: dec(v) for k, v in op[1]}
+                given = {k: dec(v) for k, v in op[1]}
+                w['given'] = (given, dict(given))        # the caller's dict stays the caller's: later mutations of the Selector do not touch it
+                p.objects = given
             w['proxy'] = None
             return None
         raise AssertionError(op)
@@ -333,6 +350,9 @@ class C18(Harness):
             bad('view-agrees', 'names', names, obs['names'])
         if obs['range'] != rng:
             bad('view-agrees', 'get_range()', rng, obs['range'])
+        if w.get('given') and w['given'][0] != w['given'][1]:
+            vs.append(V('caller-dict-changed', 'the dict that was assigned to objects earlier was changed by a later mutation of the Selector: %r -> %r (step %d op %s)' % (
+                w['given'][1], w['given'][0], step, opkind), op=opkind, style=cfg['style']))
         # an instance-level mutation leaves the other holders of the Selector alone
         if cfg['level'] == 'instance':
             for label, holder in (('class', w['cls'].param.s), ('sibling instance', w['sibling'].param.s)):
@@ -373,7 +393,7 @@ class C18(Harness):
                     break
                 hits['mutation'] += 1
                 if last:
-                    if op[0] in ('pop', 'popkey'):
+                    if op[0] in ('pop', 'popkey', 'popdefault'):
                         hits['pop'] += 1
                         if ret is not exp_ret and ret != exp_ret:
                             vs.append(V('pop-returns-removed', '%s returned %r, removed object is %r' % (op, ret, exp_ret),
